@@ -198,3 +198,133 @@ void h_shrink(void)
     (void)hnew;
     VERIF_CANARY();
 }
+
+/* ---- lemma: a_avl_handle_remove (successor splice of a two-child node) and the simple unlink of a_avl_remove's
+        glue are followed by the retrace loop; here: G? - X { L (left subtree, boundary, present), spine s0 = X->right,
+        s1 = s0->left, ... down to the successor Y = s_depth (depth 0..MAXDEPTH materialised; Y->left absent,
+        Y->right = boundary; every spine node's right subtree a boundary) }, all subtree heights symbolic.
+   post: Y stands where X stood (same parent, same balance factor word), X is unlinked, nothing is lost, order and
+        parent links are intact, and the tree is valid for the heights BEFORE the removal if the subtree the function
+        reports as shrunk (returned node, *left) is counted one level higher: exactly the precondition J_shrink of
+        a_avl_handle_shrink, which the caller's loop applies next. ---- */
+#ifndef MAXDEPTH
+#define MAXDEPTH 2
+#endif
+#define SW 5
+#define SB 5
+static wn sG, sX, sS0, sS1, sS2;
+static wn sL, sR0, sR1, sR2;
+static wn *SWn[SW]; static int snw;
+static wn *SBn[SB]; static int snb; static int SBh[SB];
+static int Sh[SW], Sok[SW], Smn[SW], Smx[SW], Ssz[SW];
+static a_avl_node *phantom_parent; static int phantom_side;
+static int swidx(a_avl_node const *x) { int i, r = -1; for (i = 0; i < SW; ++i) { if (i < snw && x == &SWn[i]->n) { r = i; } } return r; }
+static int sbidx(a_avl_node const *x) { int i, r = -1; for (i = 0; i < SB; ++i) { if (i < snb && x == &SBn[i]->n) { r = i; } } return r; }
+static int sknown(a_avl_node const *x) { return x == A_NULL || swidx(x) >= 0 || sbidx(x) >= 0; }
+static int sh_of(a_avl_node const *x) { int w = swidx(x), b = sbidx(x); return x == A_NULL ? 0 : w >= 0 ? Sh[w] : b >= 0 ? SBh[b] : -1000; }
+static int sok_of(a_avl_node const *x) { int w = swidx(x); return x == A_NULL ? 1 : w >= 0 ? Sok[w] : sbidx(x) >= 0; }
+static int smn_of(a_avl_node const *x) { int w = swidx(x); return w >= 0 ? Smn[w] : ((wn const *)x)->key; }
+static int smx_of(a_avl_node const *x) { int w = swidx(x); return w >= 0 ? Smx[w] : ((wn const *)x)->key; }
+static int ssz_of(a_avl_node const *x) { int w = swidx(x); return x == A_NULL ? 0 : w >= 0 ? Ssz[w] : 1; }
+static int sh_child(a_avl_node *x, int side) { a_avl_node *c = a_avl_child(x, side); return sh_of(c) + ((x == phantom_parent && side == phantom_side) ? 1 : 0); }
+static void spasses(void)
+{
+    int p, i;
+    for (i = 0; i < SW; ++i) { Sh[i] = 0; Sok[i] = 0; Ssz[i] = 1; if (i < snw) { Smn[i] = Smx[i] = SWn[i]->key; } }
+    for (p = 0; p < SW; ++p)
+    {
+        for (i = SW - 1; i >= 0; --i)
+        {
+            if (i < snw)
+            {
+                a_avl_node *x = &SWn[i]->n, *l = x->left, *r = x->right;
+                int ok = sknown(l) && sknown(r) && !(l && l == r);
+                if (ok)
+                {
+                    int hl = sh_child(x, -1), hr = sh_child(x, 1);
+                    ok = sok_of(l) && sok_of(r) && hr - hl <= 1 && hl - hr <= 1 && a_avl_factor(x) == hr - hl;
+                    if (l && !(smx_of(l) < SWn[i]->key)) { ok = 0; }
+                    if (r && !(SWn[i]->key < smn_of(r))) { ok = 0; }
+                    if (l && a_avl_parent(l) != x) { ok = 0; }
+                    if (r && a_avl_parent(r) != x) { ok = 0; }
+                    Sh[i] = 1 + maxi(hl, hr);
+                    Smn[i] = l ? smn_of(l) : SWn[i]->key;
+                    Smx[i] = r ? smx_of(r) : SWn[i]->key;
+                    Ssz[i] = 1 + ssz_of(l) + ssz_of(r);
+                }
+                Sok[i] = ok;
+            }
+        }
+    }
+}
+static void slink(wn *parent, wn *child, int side, _Bool exists, int factor)
+{
+    a_avl_set_child(&parent->n, exists ? &child->n : (a_avl_node *)A_NULL, side);
+    child->n.left = child->n.right = A_NULL;
+    a_avl_set_parent_factor(&child->n, &parent->n, factor);
+}
+void h_splice(void)
+{
+    ND(int, depth, int); ND(_Bool, hasG_, bool); ND(int, sideG_, int);
+    ND(int, hL, int); ND(int, h0, int); ND(int, h1, int); ND(int, h2, int);
+    ND(int, fL, int); ND(int, f0, int); ND(int, f1, int); ND(int, f2, int); ND(int, fG, int);
+    ASSUME(depth >= 0 && depth <= MAXDEPTH && (sideG_ == -1 || sideG_ == 1));
+    ASSUME(1 <= hL && hL <= HMAX && 0 <= h0 && h0 <= HMAX && 0 <= h1 && h1 <= HMAX && 0 <= h2 && h2 <= HMAX);
+    ASSUME(-1 <= fL && fL <= 1 && -1 <= f0 && f0 <= 1 && -1 <= f1 && f1 <= 1 && -1 <= f2 && f2 <= 1 && -1 <= fG && fG <= 1);
+    wn *sp[3]; sp[0] = &sS0; sp[1] = &sS1; sp[2] = &sS2;
+    wn *rb[3]; rb[0] = &sR0; rb[1] = &sR1; rb[2] = &sR2;
+    int hs[3]; hs[0] = h0; hs[1] = h1; hs[2] = h2;
+    int fs[3]; fs[0] = f0; fs[1] = f1; fs[2] = f2;
+    int i;
+    snw = 0; SWn[snw++] = &sX;
+    for (i = 0; i < 3; ++i) { if (i <= depth) { SWn[snw++] = sp[i]; } }
+    SBn[0] = &sL; SBn[1] = &sR0; SBn[2] = &sR1; SBn[3] = &sR2; snb = 4;
+    SBh[0] = hL; SBh[1] = h0; SBh[2] = h1; SBh[3] = h2;
+    sG.key = 1000; sL.key = 10; sX.key = 20;
+    for (i = 0; i < 3; ++i) { sp[i]->key = 100 - 20 * i; rb[i]->key = 100 - 20 * i + 5; }
+    /* heights of the spine nodes bottom-up: the successor Y = sp[depth] has no left child */
+    int hh[4]; hh[depth + 1 <= 3 ? depth + 1 : 3] = 0;
+    int hsp[3];
+    for (i = 2; i >= 0; --i) { if (i <= depth) { int hl = (i == depth) ? 0 : hsp[i + 1]; hsp[i] = 1 + maxi(hl, hs[i]); ASSUME(hs[i] - hl <= 1 && hl - hs[i] <= 1); } }
+    int hX = 1 + maxi(hL, hsp[0]);
+    ASSUME(hsp[0] - hL <= 1 && hL - hsp[0] <= 1);
+    /* links and factors */
+    sG.n.left = sG.n.right = A_NULL; a_avl_set_parent_factor(&sG.n, A_NULL, fG);
+    sX.n.left = sX.n.right = A_NULL; a_avl_set_parent_factor(&sX.n, hasG_ ? &sG.n : (a_avl_node *)A_NULL, hsp[0] - hL);
+    if (hasG_) { a_avl_set_child(&sG.n, &sX.n, sideG_); root.node = &sG.n; } else { root.node = &sX.n; }
+    slink(&sX, &sL, -1, 1, fL);
+    for (i = 0; i < 3; ++i)
+    {
+        if (i <= depth)
+        {
+            int hl = (i == depth) ? 0 : hsp[i + 1];
+            slink(i == 0 ? &sX : sp[i - 1], sp[i], i == 0 ? 1 : -1, 1, hs[i] - hl);
+        }
+    }
+    for (i = 0; i < 3; ++i) { if (i <= depth) { slink(sp[i], rb[i], 1, hs[i] > 0, fs[i]); if (i == depth) { sp[i]->n.left = A_NULL; } } }
+    a_uptr Gword0 = sG.n.parent_; a_avl_node *Gother0 = a_avl_child(&sG.n, -sideG_);
+    a_uptr Xword0 = sX.n.parent_;
+    phantom_parent = A_NULL;
+    spasses();
+    ASSUME(sok_of(&sX.n) && sh_of(&sX.n) == hX);
+    int size0 = ssz_of(&sX.n), left = 7;
+    a_avl_node *ret = a_avl_handle_remove(&root, &sX.n, &left);
+    {
+        wn *Y = sp[depth];
+        a_avl_node *t = hasG_ ? a_avl_child(&sG.n, sideG_) : root.node;
+        /* X is unlinked: judge the remaining window nodes */
+        int j = 0; wn *keep[SW];
+        for (i = 0; i < SW; ++i) { if (i < snw && SWn[i] != &sX) { keep[j++] = SWn[i]; } }
+        for (i = 0; i < SW; ++i) { if (i < j) { SWn[i] = keep[i]; } }
+        snw = j;
+        ASSERT(t == &Y->n && Y->n.parent_ == Xword0, "handle_remove: the in-order successor stands where the node stood, with its parent and balance factor");
+        ASSERT(!hasG_ || (sG.n.parent_ == Gword0 && a_avl_child(&sG.n, -sideG_) == Gother0 && root.node == &sG.n), "handle_remove: nothing above the node changed");
+        ASSERT(ret == (depth == 0 ? &Y->n : &sp[depth - 1]->n) && left == (depth == 0 ? 0 : 1), "handle_remove: returns the parent of the successor's old position and the side that shrank");
+        phantom_parent = ret; phantom_side = left ? -1 : 1;
+        spasses();
+        ASSERT(sok_of(t), "handle_remove: counted with the old height of the reported subtree, every node is a valid AVL node with correct order and parent links (the retrace precondition)");
+        ASSERT(sh_of(t) == hX, "handle_remove: ... and the heights are those before the removal");
+        ASSERT(ssz_of(t) == size0 - 1, "handle_remove: exactly the removed element is gone");
+    }
+    VERIF_CANARY();
+}
